@@ -1146,3 +1146,45 @@ pub fn describe_path(root: &Value, path: &str) -> String {
     }
     cur.to_string().chars().take(80).collect()
 }
+
+/// A handful of boundary values per field for the pairwise blocks of Gen (empty = field does not
+/// take part: lists, spares, counts, tags).
+pub fn pair_values(f: &Field) -> Vec<Val> {
+    let n = |v: &[i64]| v.iter().map(|x| Val::N(*x)).collect::<Vec<_>>();
+    match &f.ty {
+        Ty::U8 => n(&[0, 1, 0x7f, 0x80, 0xff]),
+        Ty::U16 | Ty::Ms16 | Ty::Cs16 => n(&[0, 1, 0xff, 0x100, 0xffff]),
+        Ty::I16 => n(&[0, 1, -1, 32767, -32768]),
+        Ty::U32 | Ty::Ms32 | Ty::Cs32 | Ty::Ip4 => n(&[0, 1, 0xffff, 0x10000, 0xffff_ffff]),
+        Ty::I32 => n(&[0, 1, -1, i32::MAX as i64, i32::MIN as i64]),
+        Ty::Bool | Ty::Bool32 => n(&[0, 1]),
+        Ty::Char => n(&[0, b'A' as i64, 0x7f, 0xff]),
+        Ty::Enum { items, .. } => {
+            let mut v = vec![items[0].1 as i64, items[items.len() - 1].1 as i64, items[items.len() / 2].1 as i64];
+            v.dedup();
+            n(&v)
+        },
+        Ty::Flags { items, .. } => {
+            let all: i64 = items.iter().fold(0, |a, b| a | (1i64 << b.1));
+            let lo = 1i64 << items[0].1;
+            let hi = 1i64 << items[items.len() - 1].1;
+            let mut v = vec![0, lo, hi, all];
+            v.dedup();
+            n(&v)
+        },
+        Ty::Text(w) | Ty::Raw(w) => vec![Val::S(String::new()), Val::S("Z".repeat(*w - 1))],
+        Ty::Vehicle => n(&[0, u32::from_le_bytes(*b"XFG\0") as i64, u32::from_le_bytes(*b"FBM\0") as i64, 0x0012_3456, 0xffff_ffff]),
+        Ty::RaceLaps => n(&[0, 1, 99, 100, 190, 191, 238]),
+        Ty::Fuel => n(&[0, 100, 254, 255]),
+        Ty::Nib { lo, .. } => {
+            if lo.is_some() {
+                vec![Val::Nb(0, 0), Val::Nb(15, 0), Val::Nb(0, 15), Val::Nb(15, 15), Val::Nb(5, 10)]
+            } else {
+                vec![Val::Nb(0, 0), Val::Nb(15, 0), Val::Nb(5, 0)]
+            }
+        },
+        Ty::SpClose => n(&[0, 1, 0xff, 0x100, 0xfff]),
+        Ty::Cars32 => n(&[0, 1, 1 << 19, (1 << 20) - 1]),
+        _ => vec![],
+    }
+}
